@@ -6,6 +6,7 @@
 package pass1
 
 import (
+	"strings"
 	"github.com/HobbyOSs/gosk/internal/ast"
 	ocode_client "github.com/HobbyOSs/gosk/internal/ocode_client"
 	"github.com/HobbyOSs/gosk/pkg/cpu"
@@ -137,14 +138,36 @@ func specModesOK(env *Pass1) bool {
 // dispatch to) assigns is pass-1 state, the ocode list, the code generation context's
 // mode, and objects it allocates itself. The frame is checked against the inferred
 // write sets of all handlers registered in opcodeEvalFns.
+// A label statement assigns the label the value of the location counter at that point and does not
+// move it (C03: a label's value is the origin plus the bytes counted before it).
+func specIsLabelStmt(n ast.Node) bool {
+	_, ok := n.(*ast.LabelStmt)
+	return ok
+}
+
+func specLabelNonNil(n ast.Node) bool {
+	l, ok := n.(*ast.LabelStmt)
+	return ok && l != nil && l.Label != nil
+}
+
+func specLabelOf(n ast.Node) string {
+	l, ok := n.(*ast.LabelStmt)
+	if !ok || l.Label == nil {
+		return ""
+	}
+	return strings.TrimSuffix(l.Label.Value, ":")
+}
+
 //@ func TraverseAST
-//@ props C10 C14 C17 C05 C07
+//@ props C10 C14 C17 C05 C07 C03
 //@ option trusted-frame no-panic-obligations
 //@ requires env != nil && env.Client != nil && env.SymTable != nil && specModesOK(env)
 //@ loop 0 invariant specModesOK(env)
 //@ loop 1 invariant specModesOK(env)
 //@ loop 2 invariant specModesOK(env)
 //@ ensures[T.mode] specModesOK(env)
+//@ ensures[label.loc@C03] specIsLabelStmt(node) ==> env.LOC == old(env.LOC)
+//@ ensures[label.val@C03] specIsLabelStmt(node) && specLabelNonNil(node) ==> env.SymTable[specLabelOf(node)] == old(env.LOC)
 //@ ensures[nohandler.opcode@C07] specIsOpcodeStmt(node) && !specHasHandler(specOpcodeOf(node)) ==> vcLoggedError()
 //@ ensures[nohandler.mnemonic@C07] specIsMnemonicStmt(node) && !specHasHandler(specMnemonicOf(node)) ==> vcLoggedError()
 //@ assigns Pass1.LOC, Pass1.BitMode, Pass1.OutputFormat, Pass1.SourceFileName, Pass1.CurrentSection, Pass1.MacroMap, Pass1.NextImmJumpID, Pass1.DollarPosition, Pass1.GlobalSymbolList, Pass1.ExternSymbolList, ocodeClient.Ocodes, CodeGenContext.BitMode, map[string]int32, map[string]ast.Exp, []string
